@@ -6,7 +6,7 @@ import ast
 import re
 
 from ..cfg import cfg_of
-from ..core import AnalysisError, call_name, unparse, walk_no_nested
+from ..core import AnalysisError, call_name, named_args, unparse, walk_no_nested
 from ..packs import ecc
 from ..report import Ctx
 from ..pattern import body_is, find, find_expr, has, has_expr
@@ -85,7 +85,13 @@ self.individualMap = pd.DataFrame(_M).T
             if not all(cb.dominates(cb.node_of(x), cb.node_of(build[0])) for x in ren + stores[:1]):
                 why = 'sorting and renumbering of self.data are skipped on some paths to the construction of the map: a table that is in order but whose index has gaps (rows removed) is then mapped by row labels, not by positions'
     ctx.add('C09.R1', 'Database.build_panel_map:order', ok if (ok or why) else None, b, 'sort, then renumber the index, then build the map' if ok else (why or f'the beginning of build_panel_map is not in the expected form: {steps[:2]}'), str(steps[:2]), positive=bool(why))
-    ctx.add('C09.R1', 'Database.build_panel_map:rows', okm, b, 'each individual is mapped to [first, last] position of its rows' if okm else 'the map rows are no longer [min, max] of the positions of the rows of the individual', 'rows')
+    byfreq = None
+    if not okm:
+        vc = [c_ for c_ in walk_no_nested(b.node) if isinstance(c_, ast.Call) and call_name(c_) == 'value_counts' and named_args(c_).get('sort') != 'False' and not any(k.arg == 'sort' and unparse(k.value) == 'False' for k in c_.keywords)]
+        cum = any(isinstance(c_, ast.Call) and call_name(c_) == 'cumsum' for c_ in walk_no_nested(b.node))
+        if vc and cum:
+            byfreq = f'the ranges of rows are cumulated over {unparse(vc[0])[:60]}, which lists the individuals by decreasing number of rows, while the rows are sorted by individual: in an unbalanced panel an individual is mapped to the rows of others'
+    ctx.add('C09.R1', 'Database.build_panel_map:rows', okm if (okm or byfreq) else None, b, byfreq if byfreq else 'each individual is mapped to [first, last] position of its rows' if okm else 'the map rows are no longer [min, max] of the positions of the rows of the individual', 'rows', positive=bool(byfreq))
     cg = prog.func('tools.database', 'count_number_of_groups')
     ok = has(cg.node, "df['_bio_groups'] = pd.Series(df[column] != df[column].shift(1)).cumsum()\n_R = len(df['_bio_groups'].unique())\n___\nreturn _R")
     ctx.add('C09.R1', 'count_number_of_groups', ok, cg, 'a group starts wherever the value differs from the previous row' if ok else 'count_number_of_groups changed', 'groups')
